@@ -64,6 +64,8 @@ def case_spec(prop, seed, i):
         return 'con_struct', sp
     if not only and .9 < r <= .93:
         return 'necessary_conflict', gen.gen_necessary_conflict(rnd)
+    if not only and .86 < r <= .9:
+        return 'group_conditional', gen.gen_group_conditional(rnd)
     for name, w, kw in profiles:
         acc += w
         if r < acc:
@@ -722,6 +724,7 @@ def worker(task, col):
             if ok_forced and tmp.evaluations:
                 col.count('forced_encoder_cases')
                 col.count('forced_family_' + oe.family)
+                col.count('forced_imputer_' + oe.imputer)
                 for v in tmp.violations:
                     v.setdefault('where', {})['forced_encoder'] = True
                 col.violations.extend(tmp.violations)
